@@ -26,8 +26,26 @@ def writer_table(ctx, fn, _depth=0):
     table = {}
     order = []
 
-    def add_dict(d, always):
+    def add_dict(d, always, depth=0):
         for k, v in zip(d.keys, d.values):
+            if k is None and depth < 3:
+                # {**other}: the entries of a dict literal bound once to a local, or of the dict a project helper returns
+                from ..idioms import single_def
+                src = single_def(fn.node, v.id) if isinstance(v, ast.Name) else v
+                if isinstance(src, ast.Dict):
+                    add_dict(src, always, depth + 1)
+                elif isinstance(src, ast.Call) and _depth < 2:
+                    g = None
+                    if isinstance(src.func, ast.Attribute) and is_self_attr(src.func, fn.self_name) and fn.cls is not None:
+                        g = fn.cls.lookup(src.func.attr)
+                    elif ctx is not None:
+                        g = ctx.prog.functions.get(ctx.prog.resolve(fn.module, src.func) or '')
+                    if g is not None:
+                        for k_, v_ in writer_table(ctx, g, _depth + 1).items():
+                            if not hasattr(v_, '_owner_fn'):
+                                v_._owner_fn = g
+                            table[k_] = v_
+                continue
             key = const_value(k)
             if isinstance(key, str):
                 table[key] = v
@@ -247,6 +265,14 @@ def reader_binding(ctx, fn, read):
                 cur = par
                 par = getattr(par, '_parent', None)
                 continue
+            if isinstance(par.func, ast.Attribute) and par.func.attr in ('extend', 'append') and len(par.args) == 1:
+                # inst.attr.extend(<restored values>) / local.extend(...) with the local bound to inst.attr
+                recv = par.func.value
+                if isinstance(recv, ast.Attribute):
+                    attr = recv.attr
+                elif isinstance(recv, ast.Name):
+                    attr, _t2 = _follow_local(ctx, f, recv.id)
+                break
             if nm in ('numpy.array', 'numpy.asarray'):
                 tag = 'array'
             elif nm == 'pandas.DataFrame':
@@ -307,7 +333,7 @@ def reader_binding(ctx, fn, read):
             continue
         elif isinstance(par, ast.comprehension) and par.iter is cur:
             comp = par._parent
-            if isinstance(comp, ast.ListComp) and isinstance(comp.elt, ast.Call) and call_name(comp.elt) == 'from_dict':
+            if isinstance(comp, (ast.ListComp, ast.GeneratorExp)) and isinstance(comp.elt, ast.Call) and call_name(comp.elt) == 'from_dict':
                 tag = 'dicts'
             cur = comp
             par = getattr(comp, '_parent', None)
